@@ -198,8 +198,10 @@ impl MetadataUpdate {
 #[cfg(scylla_verif)]
 #[allow(unreachable_pub, missing_docs)]
 pub(crate) mod verif_api {
-    use super::{MetadataChanges, MetadataUpdate, PartialMetadataChanges, StatusHint};
-    use crate::cluster::metadata::{Metadata, Peer};
+    use super::{
+        ClientRoutesUpdate, MetadataChanges, MetadataUpdate, PartialMetadataChanges, StatusHint,
+    };
+    use crate::cluster::metadata::{ClientRoute, ClientRoutes, Metadata, Peer};
     use crate::cluster::node::NodeAddr;
     use crate::errors::MetadataError;
     use std::collections::HashMap;
@@ -222,10 +224,22 @@ pub(crate) mod verif_api {
         },
     }
 
+    /// The client routes a taken update carries, entries sorted by (host, connection).
+    pub enum VerifRoutes {
+        /// No full fetch with client routes configured, no partial client-routes update.
+        None,
+        /// Inside the full fetch result: (host, connection, route tag).
+        Full(Vec<(u8, u8, u16)>),
+        /// Partial update: (host, connection, Some(route tag) = created or updated,
+        /// None = removed).
+        Partial(Vec<(u8, u8, Option<u16>)>),
+    }
+
     pub struct VerifTaken {
         pub changes: VerifChanges,
         /// (address, is UP hint), sorted by address.
         pub hints: Vec<(SocketAddr, bool)>,
+        pub routes: VerifRoutes,
     }
 
     #[derive(Default)]
@@ -243,8 +257,31 @@ pub(crate) mod verif_api {
         }]
     }
 
+    fn tagged_route(host: u8, conn: u8, tag: u16) -> ClientRoute {
+        ClientRoute {
+            connection_id: format!("c{conn}"),
+            host_id: Uuid::from_u128(host as u128),
+            hostname: "h".to_owned(),
+            port: Some(tag),
+            tls_port: None,
+        }
+    }
+
+    fn route_key(host_id: &Uuid, connection_id: &str) -> (u8, u8) {
+        (
+            host_id.as_u128() as u8,
+            connection_id
+                .trim_start_matches('c')
+                .parse()
+                .unwrap_or(u8::MAX),
+        )
+    }
+
     fn peers_tag(peers: &[Peer]) -> u64 {
-        peers.first().map(|p| p.host_id.as_u128() as u64).unwrap_or(u64::MAX)
+        peers
+            .first()
+            .map(|p| p.host_id.as_u128() as u64)
+            .unwrap_or(u64::MAX)
     }
 
     impl VerifUpdateSlot {
@@ -264,11 +301,28 @@ pub(crate) mod verif_api {
             peers_id: u64,
             with_responder: bool,
         ) -> Option<VerifRefreshReceiver> {
+            self.merge_full_with_routes(metadata_id, peers_id, with_responder, None)
+        }
+
+        /// As `merge_full`, the fetch result carrying the client-routes snapshot `routes`
+        /// ((host, connection, route tag); `None` = client routes are not configured).
+        pub fn merge_full_with_routes(
+            &mut self,
+            metadata_id: u64,
+            peers_id: u64,
+            with_responder: bool,
+            routes: Option<&[(u8, u8, u16)]>,
+        ) -> Option<VerifRefreshReceiver> {
+            let client_routes = routes.map(|routes| {
+                let mut all = ClientRoutes::default();
+                all.extend(routes.iter().map(|(h, c, t)| tagged_route(*h, *c, *t)));
+                all
+            });
             let metadata = Metadata {
                 peers: tagged_peers(peers_id),
                 keyspaces: HashMap::new(),
                 cluster_name: Some(metadata_id.to_string()),
-                client_routes: None,
+                client_routes,
             };
             let (tx, rx) = if with_responder {
                 let (tx, rx) = oneshot::channel();
@@ -283,6 +337,20 @@ pub(crate) mod verif_api {
         /// A partial topology fetch result.
         pub fn merge_topology(&mut self, peers_id: u64) {
             MetadataUpdate::merge_topology_update(&mut self.slot, tagged_peers(peers_id));
+        }
+
+        /// A partial client-routes fetch result: per (host, connection) the route found
+        /// (its tag) or its absence.
+        pub fn merge_client_routes(&mut self, entries: &[(u8, u8, Option<u16>)]) {
+            let mut update = ClientRoutesUpdate::default();
+            for (h, c, t) in entries {
+                update
+                    .updates
+                    .entry(Uuid::from_u128(*h as u128))
+                    .or_default()
+                    .insert(format!("c{c}"), t.map(|t| tagged_route(*h, *c, t)));
+            }
+            MetadataUpdate::merge_client_routes_update(&mut self.slot, update);
         }
 
         pub fn hint(&mut self, addr: SocketAddr, up: bool) {
@@ -302,28 +370,62 @@ pub(crate) mod verif_api {
                 .map(|(a, h)| (*a, *h == StatusHint::Up))
                 .collect();
             hints.sort();
+            let mut routes = VerifRoutes::None;
             let changes = match update.metadata_changes {
                 None => VerifChanges::None,
                 Some(MetadataChanges::Full {
                     metadata,
                     refresh_responses,
-                }) => VerifChanges::Full {
-                    metadata_id: metadata
-                        .cluster_name
-                        .as_deref()
-                        .and_then(|s| s.parse().ok())
-                        .unwrap_or(u64::MAX),
-                    peers_id: peers_tag(&metadata.peers),
-                    responders: refresh_responses,
-                },
+                }) => {
+                    if let Some(all) = &metadata.client_routes {
+                        let mut v: Vec<(u8, u8, u16)> = all
+                            .routes
+                            .iter()
+                            .flat_map(|(h, per_conn)| {
+                                per_conn.iter().map(move |(c, r)| {
+                                    let (h, c) = route_key(h, c);
+                                    (h, c, r.port.unwrap_or(u16::MAX))
+                                })
+                            })
+                            .collect();
+                        v.sort();
+                        routes = VerifRoutes::Full(v);
+                    }
+                    VerifChanges::Full {
+                        metadata_id: metadata
+                            .cluster_name
+                            .as_deref()
+                            .and_then(|s| s.parse().ok())
+                            .unwrap_or(u64::MAX),
+                        peers_id: peers_tag(&metadata.peers),
+                        responders: refresh_responses,
+                    }
+                }
                 Some(MetadataChanges::Partial(PartialMetadataChanges {
                     peers,
-                    client_routes_updates: _,
-                })) => VerifChanges::Partial {
-                    peers_id: peers.as_deref().map(peers_tag),
-                },
+                    client_routes_updates,
+                })) => {
+                    if let Some(u) = client_routes_updates {
+                        let mut v: Vec<(u8, u8, Option<u16>)> = u
+                            .into_entries()
+                            .map(|(h, c, r)| {
+                                let (h, c) = route_key(&h, &c);
+                                (h, c, r.map(|r| r.port.unwrap_or(u16::MAX)))
+                            })
+                            .collect();
+                        v.sort();
+                        routes = VerifRoutes::Partial(v);
+                    }
+                    VerifChanges::Partial {
+                        peers_id: peers.as_deref().map(peers_tag),
+                    }
+                }
             };
-            Some(VerifTaken { changes, hints })
+            Some(VerifTaken {
+                changes,
+                hints,
+                routes,
+            })
         }
     }
 }
